@@ -41,7 +41,7 @@ class EnumDef:
 
     @property
     def active(self):
-        return [(n, d) for (n, d, c) in self.variants if c != "off"]
+        return [(n, d) for (n, d, c) in self.variants if c not in ("off", "off_doc")]
 
     @property
     def returns_result(self) -> bool:
@@ -69,9 +69,12 @@ class EnumDef:
             pass
         out.append(f"pub enum {self.name} {{")
         for (n, d, c) in self.variants:
-            if c == "on":
+            # c: None | 'on' | 'off' | 'on_doc' | 'off_doc' (the cfg attribute preceded by a doc comment)
+            if c in ("on_doc", "off_doc"):
+                out.append(f"    /// variant {n}")
+            if c in ("on", "on_doc"):
                 out.append("    #[cfg(all())]")
-            elif c == "off":
+            elif c in ("off", "off_doc"):
                 out.append("    #[cfg(any())]")
             out.append(f"    {n} = {d:#x},")
         out.append("}")
@@ -164,6 +167,7 @@ class Field:
     form: str = "auto"  # 'auto' | 'bits1' (single bit written as bits(n..=n)) | 'list' (force list syntax)
     raw_attr: Optional[str] = None  # verbatim attribute text for ill-formed candidates (e.g. lo > hi)
     doc: Optional[str] = None
+    arg_order: str = "ras"  # order of (r)ange, (a)ccess, (s)tride inside the attribute
 
     @property
     def readable(self):
@@ -206,10 +210,9 @@ class Field:
             else:
                 kw = "bits"
                 args.append(f"{lo}..={lo + n - 1}")
-        if self.access:
-            args.append(self.access)
-        if self.array and self.array[2]:
-            args.append(f"stride{':' if legacy else ' ='} {self.array[1]}")
+        parts = {"r": args[0], "a": self.access or None,
+                 "s": (f"stride{':' if legacy else ' ='} {self.array[1]}" if (self.array and self.array[2]) else None)}
+        args = [parts[k] for k in self.arg_order if parts.get(k)]
         return f"#[{kw}({', '.join(args)})]"
 
     def field_ty(self) -> str:
@@ -233,7 +236,7 @@ class Field:
         return out
 
     def sig(self):
-        return (self.ty.sig(), tuple(self.ranges), self.array, self.access, self.form, self.raw_attr)
+        return (self.ty.sig(), tuple(self.ranges), self.array, self.access, self.form, self.raw_attr, self.arg_order)
 
 
 @dataclass
